@@ -4,7 +4,7 @@ from .common import *
 from ..models.serde import JsonValue
 from .. import refmodel
 
-BOUNDS = {"histories": "all sequences of <= 3 operations (thorough 4) over {write k v1, write k v1 with metadata, write k v2, remove k} x 2 keys, "
+BOUNDS = {"histories": "all sequences of <= 3 operations (thorough: 4 in the sync flavour) over {write k v1, write k v1 with metadata, write k v2, remove k} x 2 keys, "
                        "each step through the sync or the async entry point (chosen exhaustively)",
           "values": "two distinct blobs of any length", "timestamps": "wall clock (non-decreasing) or explicit symbolic u128 per write, in any order", "foreign_records": "a foreign key's record and a tombstone pre-placed in the bucket file",
           "outside": "longer histories; more than two keys"}
@@ -115,11 +115,15 @@ def history(ctx, length, first, mix_api, foreign, explicit_time=False, odd_keys=
 
 def tasks(tier, flavours):
     out = []
-    length = 3 if tier == "quick" else 4
+    length = 3
     for fl in flavours:
         for first in range(8):
             out.append(dict(module="C05", family="history", flavour=fl,
                             params=dict(length=length, first=first, mix_api=(fl != "sync" and tier != "quick"), foreign=False)))
+        if tier != "quick" and fl == "sync":
+            # histories of four operations (sync flavour; the async code paths share the index format and are covered at length 3)
+            for first in range(8):
+                out.append(dict(module="C05", family="history", flavour=fl, params=dict(length=4, first=first, mix_api=False, foreign=False), time_budget=3000))
         if fl != "sync" and tier == "quick":
             for first in (0, 3):
                 out.append(dict(module="C05", family="history", flavour=fl, params=dict(length=2, first=first, mix_api=True, foreign=False)))
